@@ -216,6 +216,20 @@ def _uf_str(name, nargs):
     return Builtin(name, call)
 
 
+def _splitext():
+    root_f = z3.Function('os.path.splitext.root', StrS, StrS)
+    ext_f = z3.Function('os.path.splitext.ext', StrS, StrS)
+
+    def call(it, p):
+        # (root, ext): concrete for a concrete path; otherwise two uninterpreted functions of the path with root ++ ext == path
+        if isinstance(p, str):
+            return os.path.splitext(p)
+        t = term(p, StrS)
+        it.assume(z3.Concat(root_f(t), ext_f(t)) == t)
+        return (wrap(root_f(t)), wrap(ext_f(t)))
+    return Builtin('os.path.splitext', call)
+
+
 _CONCRETE = {
     'os.path.join': os.path.join, 'os.path.dirname': os.path.dirname, 'os.path.basename': os.path.basename,
 }
@@ -435,13 +449,13 @@ def external_module(it, dotted):
         a.update(deepcopy=Builtin('copy.deepcopy', _deepcopy))
     elif dotted == 'os':
         p = ModuleV('os.path')
-        p.attrs.update(join=_uf_join(), dirname=_uf_str('os.path.dirname', 1), basename=_uf_str('os.path.basename', 1),
+        p.attrs.update(join=_uf_join(), dirname=_uf_str('os.path.dirname', 1), basename=_uf_str('os.path.basename', 1), splitext=_splitext(),
                        exists=Builtin('os.path.exists', _fs_exists), isdir=Builtin('os.path.isdir', _fs_isdir))
         a['path'] = p
         a['cpu_count'] = Builtin('os.cpu_count', lambda it: 8)
         a['getpid'] = Builtin('os.getpid', lambda it: 4242)
     elif dotted == 'os.path':
-        a.update(join=_uf_join(), dirname=_uf_str('os.path.dirname', 1), basename=_uf_str('os.path.basename', 1),
+        a.update(join=_uf_join(), dirname=_uf_str('os.path.dirname', 1), basename=_uf_str('os.path.basename', 1), splitext=_splitext(),
                  exists=Builtin('os.path.exists', _fs_exists), isdir=Builtin('os.path.isdir', _fs_isdir))
     elif dotted == 'queue':
         lib.EXC_PARENT.setdefault('Empty', 'Exception')
